@@ -27,6 +27,8 @@ type Style struct {
 	// LitEscapes: string examples are written with \uXXXX escapes (non-ASCII characters, and the
 	// letters a and e now and then): the same strings, another spelling.
 	LitEscapes bool
+	// BareAnnot: nodes without rules and note get an empty inline annotation (`//` and the line end).
+	BareAnnot bool
 }
 
 // RespellLit rewrites a JSON string literal: characters outside existing escape sequences become
@@ -252,6 +254,9 @@ func (r *renderer) annotation(n *Node, level int) {
 // annotationForm writes one annotation; force >= 0 fixes the form (0 inline, 1 one-line /* */).
 func (r *renderer) annotationForm(n *Node, level int, force int) {
 	if len(n.Rules) == 0 && n.Note == "" {
+		if r.st.BareAnnot && force < 0 && r.on(true) {
+			r.sb.WriteString(" //") // an annotation that says nothing
+		}
 		return
 	}
 	ml := 0
